@@ -15,6 +15,23 @@ now".  Running it blindly defeats the guard.
     tools/update_fingerprints.py --repo DIR --lean DIR --harness DIR   other locations
 
 An entry of Transcribed.lean has the form   fp! "pkg.Recv.Name" 0x<16 hex digits>   (0 = missing).
+
+Closure.  The extractor also fingerprints every same-package function a listed function reaches
+through the static call graph and every package-level constant / variable used on the way
+(`Generated.Fingerprints.deps` holds the direct edges).  For every hand-written list
+`def X_roots : List Entry` the tool owns the block
+
+    -- BEGIN deps X ...
+    def X_deps : List Entry := [ dep.«key», ... ]
+    -- END deps X
+
+and rewrites it to "everything the entries of X_roots reach, minus X_roots itself".  The recorded hash
+of a closure member lives once, in the tool-owned block `-- BEGIN closure entries` (namespace `dep`:
+`def «key» : Entry := fp! "key" 0x…`): entries that were already there keep their recorded hash
+(and are updated like any other entry when stale), new members get the current hash (printed as
+`added`), members no longer reached by any list are dropped (printed as `removed`).  The call graph
+can only change when the text of a listed or reached function changes, i.e. when some entry is stale,
+so between two runs of this tool the blocks are complete.
 A function that no longer exists has the current fingerprint "missing"; the tool does not record
 that unless --allow-missing is given: delete the entry (and its line in
 harness/cmd/extract/fingerprints_list.go) by hand after removing it from the model.
@@ -29,7 +46,9 @@ import sys
 ROOT = os.path.dirname(os.path.dirname(os.path.abspath(__file__)))
 
 ENTRY = re.compile(r'(fp!\s+")([^"]+)("\s+)(0x[0-9a-fA-F]+|0)\b')
-TABLE = re.compile(r'^\s*\("([^"]+)",\s*"([^"]+)"\),?\s*$', re.M)
+TABLE = re.compile(r'^\s*\("([^"]+)",\s*"([^"]*)"\),?\s*$', re.M)
+ROOTS = re.compile(r'^def (\w+)_roots : List Entry := \[(.*?)\]$', re.S | re.M)
+BLOCK = '-- BEGIN deps %s'
 
 
 def current_table(gen_path):
@@ -37,7 +56,23 @@ def current_table(gen_path):
     m = re.search(r"def table : List \(String × String\) := \[(.*?)\n\]", text, re.S)
     if not m:
         sys.exit("update_fingerprints: cannot find `def table` in %s" % gen_path)
-    return dict(TABLE.findall(m.group(1)))
+    table = dict(TABLE.findall(m.group(1)))
+    edges = {}
+    m = re.search(r"def deps : List \(String × String\) := \[(.*?)\n\]", text, re.S)
+    if m:
+        edges = {k: v.split() for k, v in TABLE.findall(m.group(1))}
+    return table, edges
+
+
+def reach(roots, edges):
+    """keys reachable from `roots` through `edges`, without the roots themselves"""
+    seen, todo = set(roots), list(roots)
+    while todo:
+        for r in edges.get(todo.pop(), ()):
+            if r not in seen:
+                seen.add(r)
+                todo.append(r)
+    return sorted(seen - set(roots))
 
 
 def lit(h):
@@ -72,11 +107,12 @@ def main():
         if r.returncode != 0:
             sys.exit(2)
 
-    cur = current_table(gen)
+    cur, edges = current_table(gen)
     src = open(tr, encoding="utf-8").read()
     only = re.compile(a.only) if a.only else None
 
     changed, unknown, missing, used = [], [], [], set()
+    blk_b, blk_e = src.find("-- BEGIN closure entries"), src.find("-- END closure entries\n")
 
     def repl(m):
         key, old = m.group(2), m.group(4).lower()
@@ -84,7 +120,8 @@ def main():
         if only and not only.search(key):
             return m.group(0)
         if key not in cur:
-            if key not in unknown:
+            # inside the tool-owned closure block a vanished key is simply dropped further down
+            if not (blk_b <= m.start() < blk_e) and key not in unknown:
                 unknown.append(key)
             return m.group(0)
         new = lit(cur[key])
@@ -100,8 +137,54 @@ def main():
 
     out = ENTRY.sub(repl, src)
 
+    # tool-owned parts: the `dep` namespace (one recorded entry per closure member) and the
+    # `X_deps` lists (membership = closure of X_roots, as references into `dep`)
+    added, removed, relisted = [], [], 0
+    gb = out.find("-- BEGIN closure entries")
+    ge = out.find("-- END closure entries\n")
+    if gb < 0 or ge < 0:
+        sys.exit("update_fingerprints: Transcribed.lean has no `-- BEGIN closure entries` / `-- END closure entries` block")
+    ghead_end = out.index("\n", gb) + 1
+    old = {x[1]: x[3] for x in ENTRY.findall(out[ghead_end:ge])}
+    lists, union = [], set()
+    for m in ROOTS.finditer(out):
+        roots = [e[1] for e in ENTRY.findall(m.group(2))]
+        want = [k for k in reach(roots, edges) if k in cur]
+        lists.append((m.group(1), want))
+        union.update(want)
+    lines = []
+    for k in sorted(union):
+        if k in old:
+            lines.append('def «%s» : Entry := fp! "%s" %s' % (k, k, old[k]))
+        else:
+            lines.append('def «%s» : Entry := fp! "%s" %s' % (k, k, lit(cur[k])))
+            added.append(k)
+        used.add(k)
+    removed = sorted(k for k in old if k not in union)
+    out = out[:ghead_end] + "namespace dep\n" + "\n".join(lines) + ("\n" if lines else "") + "end dep\n" + out[ge:]
+    for name, want in lists:
+        b = out.find(BLOCK % name + " ")
+        e = out.find("-- END deps %s\n" % name)
+        if b < 0 or e < 0:
+            print("warning: list %s_roots has no `-- BEGIN deps %s` / `-- END deps %s` block" % (name, name, name))
+            continue
+        head_end = out.index("\n", b) + 1
+        body = "def %s_deps : List Entry := [%s]\n" % (
+            name, ("\n" + ",\n".join("  dep.«%s»" % k for k in want) + "\n") if want else "")
+        if out[head_end:e] != body:
+            relisted += 1
+        out = out[:head_end] + body + out[e:]
+
     for key, old, new in changed:
         print("%s %-60s %s -> %s" % ("would update" if a.dry_run else "updated", key, old, new))
+    verb = "would add" if a.dry_run else "added"
+    for key in added:
+        print("%s     %-60s (closure member, recorded as %s)" % (verb, key, lit(cur[key])))
+    verb = "would remove" if a.dry_run else "removed"
+    for key in removed:
+        print("%s   %-60s (no longer reached from any list)" % (verb, key))
+    if relisted:
+        print("%d `_deps` list(s) %s" % (relisted, "would be rewritten" if a.dry_run else "rewritten"))
     for key in missing:
         print("MISSING      %-60s no longer exists in %s: remove it from the model, from Transcribed.lean and from "
               "harness/cmd/extract/fingerprints_list.go (or pass --allow-missing)" % (key, a.repo))
@@ -110,14 +193,15 @@ def main():
     unused = sorted(k for k in cur if k not in used and not k.startswith(("asm:", "asmfiles:")))
     for key in unused:
         print("note: %s is fingerprinted but no list of Transcribed.lean uses it" % key)
-    print("%d entr%s %s, %d missing, %d unknown (%d distinct keys in Transcribed.lean, %d fingerprinted)" % (
-        len(changed), "y" if len(changed) == 1 else "ies", "stale" if a.dry_run else "updated",
-        len(missing), len(unknown), len(used), len(cur)))
+    print("%d entr%s %s, %d closure member(s) added, %d removed, %d missing, %d unknown "
+          "(%d distinct keys in Transcribed.lean, %d fingerprinted)" % (
+              len(changed), "y" if len(changed) == 1 else "ies", "stale" if a.dry_run else "updated",
+              len(added), len(removed), len(missing), len(unknown), len(used), len(cur)))
 
     if unknown:
         return 2
     if a.dry_run:
-        return 1 if (changed or missing) else 0
+        return 1 if (changed or missing or added or removed or relisted) else 0
     if out != src:
         tmp = tr + ".tmp"
         with open(tmp, "w", encoding="utf-8") as f:
